@@ -37,7 +37,7 @@ pub mod rpc {
         /// returned -- with any result -- it creates no further parts (assumption, listed).
         fn pay(&self, request: &PayRequest, Tracked(w): Tracked<&mut World>) -> (r: ::std::result::Result<PayResponse, RpcError>)
             requires
-                !old(w).lock_held,                                            // #no_rpc_under_lock [C14,C06]
+                !old(w).lock_held,                                            // #no_rpc_under_lock [C14,C06,C11]
                 store_of(*old(w)) is Pending,                                 // #write_ahead [C08,C05]
                 !live(*old(w)) && !old(w).pay_running,                        // #nothing_live [C05,C08]
                 request.bolt11@ == old(w).bolt11,                             // #pays_the_invoice_of_the_hash [C01,C03,C10,C05]
